@@ -12,6 +12,14 @@ CLAIMS = {
          "sum_products) extend this. Exhaustive within the bound, sampled beyond it; no claim above the bound.",
          "Trusted: the closure oracle in vf/props/c19.py (self-checked), Hypothesis, the adjacency-mapping input convention.",
          "DESIGN.md section 5, C19"),
+ 'C10': ("exhaustive enumeration of small graphs + Hypothesis random/structured/min-fill-hard graphs vs. validity predicate and exact subset-DP treewidth",
+         "All labelled simple graphs on <=5 (quick) / <=6 (thorough) vertices x {min_fill, quickbb, acb}: the returned bag graph must be a "
+         "tree covering every vertex and edge with connected occurrence sets; acb and quickbb widths must equal the exact treewidth "
+         "(independent subset DP); min_fill's reported width must be the width of its order and of its decomposition; helper bounds "
+         "must bracket the treewidth. Random G(n,p) to 9/11 vertices, structured families and a corpus of graphs on which min-fill is "
+         "suboptimal (so quickbb's search is exercised) extend it. Exhaustive within the bound only.",
+         "Trusted: vf/oracle_graph.py (self-checked on known treewidths), Hypothesis. Fresh argument copy per call.",
+         "DESIGN.md section 5, C10"),
 }
 
 NOT_YET = {}   # id -> reason (filled while the framework is being built)
